@@ -88,6 +88,7 @@ class Build:
 AMPLE = '1:12:1000000:1000000:100000'
 AMPLE2 = '1:12:1000000:1000000:100000,2:12:1000000:1000000:100000'
 AMPLE3 = '1:12:1000000:1000000:100000,2:12:1000000:1000000:100000,b9'
+AMPLE4 = '1:12:1000000:1000000:100000,2:12:1000000:1000000:100000,3:12:1000000:1000000:100000,b9'
 
 
 def exhaustive():
@@ -196,6 +197,56 @@ def exhaustive():
         b.drain()
         b.thr('R'); b.thr('R')
         cases.append(('ovSA_' + name, b.users, b.steps, 'overlap-authorise'))
+
+    # ---- CM: three operations overlapping - commitUpdate reaches a user's NumSession (sessionsM.RLock) while a
+    # new session of that user is being authorised by a slow UserManager (GetSession holds sessionsM, held at s),
+    # and a WRITER of activeUsersM arrives (a new user's GetUser, or the termination of a bypass user, which does
+    # not need usageUpdateQueueM - commitUpdate holds that).  The code as it is has released activeUsersM.RLock
+    # before NumSession, so the writer gets through and after the release everything finishes; a read lock kept
+    # across NumSession / taken again in isActive lets the pending writer and the nested reader wait for each
+    # other for ever (sync.RWMutex: a pending Lock blocks new RLocks).  Property text (C17): after everything
+    # held has been released, every started call returns.
+    def cm_case(name, queued, held_user, writer, early=None):
+        b = Build(AMPLE4)
+        byp = b.dispatch(9, 1)
+        kb = b.nses - 1
+        for u in queued:
+            b.dispatch(u, 1)
+            b.env('T%d.%d.3' % (b.nses - 1, 40 + 10 * u))
+        b.thr('U')                                   # the queue now has an entry per queued user
+        hold = b.dispatch(held_user, 2, 's')         # GetSession held inside AuthoriseNewSession: keeps sessionsM
+        pre = None
+        w = None
+        if early:
+            # the writer is already waiting when commitUpdate asks for its first read lock: a first connection of
+            # user 3 held inside AuthenticateUser keeps activeUsersM meanwhile
+            pre = b.dispatch(3, 1, 'a')
+            if early == 'writer-first':
+                w = writer(b, kb)
+                b.thr('M')
+            else:
+                b.thr('M')
+                w = writer(b, kb)
+            b.rel(pre)
+        else:
+            b.thr('M')                               # takes the queue lock, looks the user up, waits for sessionsM
+            w = writer(b, kb)
+        b.rel(hold)
+        b.drain()
+        b.thr('R'); b.thr('R')
+        cases.append(('ovCM_' + name, b.users, b.steps, 'overlap-commit'))
+
+    new_user = lambda b, kb: b.dispatch(2 if (2, 1) not in b.live else 3 if (3, 1) not in b.live else 2, 7 if (2, 1) in b.live and (3, 1) in b.live else 1, 'h')
+    term_bypass = lambda b, kb: b.close(kb)
+    cm_case('newuser', [1], 1, new_user)
+    cm_case('terminate', [1], 1, term_bypass)
+    cm_case('two_users_newuser', [1, 2], 1, new_user)
+    cm_case('two_users_hold2', [1, 2], 2, new_user)
+    cm_case('two_users_terminate', [1, 2], 2, term_bypass)
+    cm_case('sameuser_conn', [1], 1, lambda b, kb: b.dispatch(1, 3, 'h'))      # GetUser of an ACTIVE user takes the write lock too
+    cm_case('early_commit_first', [1], 1, lambda b, kb: b.dispatch(2, 1, 'h'), early='commit-first')
+    cm_case('early_writer_first', [1], 1, lambda b, kb: b.dispatch(2, 1, 'h'), early='writer-first')
+    cm_case('early_terminate', [1, 2], 1, term_bypass, early='writer-first')
     return cases
 
 
@@ -236,7 +287,29 @@ def gen_random(rng, nblocks):
     for _ in range(nblocks):
         for _ in range(rng.randrange(0, 4)):
             sequential()
-        kind = rng.choice(['A', 'A', 'U', 'U', 'S'])
+        kind = rng.choice(['A', 'A', 'U', 'U', 'S', 'C', 'C'])
+        if kind == 'C':
+            # commitUpdate waiting for the sessionsM a held GetSession keeps, a writer of activeUsersM arriving
+            u = rng.choice(limited)
+            if not b.live_of(u):
+                b.dispatch(u, new_sid(u))
+            b.env('T%d.%d.%d' % (b.live_of(u)[0], rng.choice([1, 40, 333]), rng.choice([0, 1, 50])))
+            b.thr('U')
+            t = b.dispatch(u, new_sid(u), 's')
+            b.thr(rng.choice(['M', 'M', 'R']))
+            x = rng.choice(['D', 'D', 'Db', 'T', '-'])
+            tx = None
+            if x == 'D':
+                v = rng.choice(limited)
+                tx = b.dispatch(v, new_sid(v), 'h')
+            elif x == 'Db' and 9 in uids:
+                tx = b.dispatch(9, new_sid(9), 'h')
+            elif x == 'T':
+                traffic()
+            b.rel(t)
+            if tx is not None:
+                b.rel(tx, strict=True)
+            continue
         if kind == 'A':
             # GetUser held inside AuthenticateUser (keeps activeUsersM when the user is not active yet)
             u = rng.choice(limited)
